@@ -4,10 +4,13 @@ import TantivyModel.Model.FieldNorm
 import TantivyModel.Model.Invert
 import TantivyModel.Model.PostingsCodec
 import TantivyModel.Model.Positions
+import TantivyModel.Model.TermInfoStore
 /-!
 Line protocol of the C07 model (see harness/src/props/c07.rs):
 
 * `vint_enc <n>` → hex; `vint_dec <hex>` → `<n> <consumed>` | `err`
+* `vint32_enc <n>` (serialize_vint_u32) → hex; `vint32_dec <hex>` (read_u32_vint_no_advance) → `<n> <len>` | `err`
+* `tis_write <df:ps:pe:qs:qe;…>` → hex of the TermInfoStore bytes; `tis_get <hex> <ord>` → `df:ps:pe:qs:qe` | `err`
 * `numbits <n>`; `fn_to_id <n>`; `id_to_fn <i>`
 * `enc <opt> <docs> <tfs>` → hex of the term's postings bytes
 * `dec <opt> <doc_freq> <hex>` → `<docs>|<tfs>` | `err`
@@ -68,6 +71,14 @@ def parseOp (s : String) : Option Op :=
 def parseProgram (s : String) : Option (List Op) :=
   if s == "-" then some [] else (s.splitOn ",").mapM parseOp
 
+def parseTermInfo (s : String) : Option TermInfoStore.TermInfo :=
+  match (s.splitOn ":").mapM (·.toNat?) with
+  | some [df, ps, pe, qs, qe] => some { docFreq := df, postStart := ps, postEnd := pe, posStart := qs, posEnd := qe }
+  | _ => none
+
+def showTermInfo (t : TermInfoStore.TermInfo) : String :=
+  ":".intercalate ([t.docFreq, t.postStart, t.postEnd, t.posStart, t.posEnd].map toString)
+
 def handleInvert (o : String) (corpus : String) : String :=
   match parseOpt o, parseCorpus corpus with
   | some o, some c => showInverted o (invert c)
@@ -86,6 +97,32 @@ def handle : List String → String
       | some (v, r) => toString v ++ " " ++ toString (bs.length - r.length)
       | none => "err"
     | none => "bad-op"
+  | ["vint32_enc", n] =>
+    match n.toNat? with
+    | some n =>
+      if n < 2 ^ 32 then
+        (hexOfNats (VInt.serializeU32 Gen.Postings.VINT32_LADDER Gen.Postings.VINT32_LAST_BYTES
+          Gen.Postings.VINT32_RADIX Gen.Postings.VINT32_STOP_BIT n)).getD "bad-op"
+      else "bad-op"
+    | none => "bad-op"
+  | ["vint32_dec", h] =>
+    match natsOfHex h with
+    | some bs =>
+      match VInt.readU32 Gen.Postings.VINT_STOP_BIT Gen.Postings.VINT32_MAX_LEN bs with
+      | some (v, n) => toString v ++ " " ++ toString n
+      | none => "err"
+    | none => "bad-op"
+  | ["tis_write", infos] =>
+    match (if infos == "-" then some [] else (infos.splitOn ";").mapM parseTermInfo) with
+    | some tis => (hexOfNats (TermInfoStore.storeBytes TermInfoStore.BLOCK_LEN tis)).getD "bad-op"
+    | none => "bad-op"
+  | ["tis_get", h, ord] =>
+    match natsOfHex h, ord.toNat? with
+    | some bs, some ord =>
+      match TermInfoStore.getFromBytes TermInfoStore.BLOCK_LEN bs ord with
+      | some t => showTermInfo t
+      | none => "err"
+    | _, _ => "bad-op"
   | ["numbits", n] =>
     match n.toNat? with
     | some n => toString (computeNumBits n)
